@@ -130,11 +130,14 @@ def declCall (row : Cells) (f : String) : Except Rej Unit :=
 /-- the `parameters` dict of the declaration -/
 abbrev Params := List (String × Option Str)
 
+/-- the returned `parameters` dict: key ↦ `entity_row.get(column, None)` -/
+def declParams (row : Cells) : Params := Gen.entityDeclParams.map fun p => (p.1, lookup p.2.toList row)
+
 /-- `get_entity_declaration(entities_sheet)` for a non-empty sheet `row :: rest` -/
 def getEntityDeclaration (row : Cells) (rest : List Cells) : Except Rej Params :=
   match runBody (rowEnv row (rest.length + 1)) (declCall row) Gen.entityDeclBody with
   | .error e => .error e
-  | .ok () => .ok (Gen.entityDeclParams.map fun (k, col) => (k, lookup col.toList row))
+  | .ok () => .ok (declParams row)
 
 /-- `parameters.get(k, …)` -/
 def paramEnv (ps : Params) : Env := { val := fun n => (ps.lookup n).bind id }
@@ -201,12 +204,13 @@ def buildAttrs (e : Env) (sub : Str → Str) : List (String × Str) → List (EB
   | d, [] => d
   | d, (g, k, v) :: r => buildAttrs e sub (if evalB e g then dictSet d k (evalP e sub v) else d) r
 
-/-- `EntityDeclaration.xml_instance` -/
-def instanceNode (ps : Params) : XNode :=
-  let e := paramEnv ps
+/-- `EntityDeclaration.xml_instance`, `e` = the `parameters` dict -/
+def instanceNodeE (e : Env) : XNode :=
   { tag := Gen.entityInstanceTag
     attrs := buildAttrs e id [] Gen.entityInstanceAttrs
     kids := (Gen.entityInstanceKids.filter fun p => evalB e p.1).map (·.2) }
+
+def instanceNode (ps : Params) : XNode := instanceNodeE (paramEnv ps)
 
 /-- one of the `_get_*_node` helpers: `node(tag, refAttr=self.get_xpath() + suffix, **attrs)` -/
 def mkNode (xpath : Str) (sub : Str → Str) (t : ENodeT) (expr : Option Str) (dest : Str) : XNode :=
